@@ -128,6 +128,8 @@ struct Tr<'a> {
     // list), a pointer into the buffer is an element index, and the list is threaded through the pointer operations
     data_mode: bool,
     has_data: bool,
+    // `data` is the element vector of `self` itself (a raw pointer into it, or overwrite's loops): no method may be called on self meanwhile
+    ptr_live: bool,
     // constructors (construct.rs): no receiver; the result is a model matrix built from an element list
     ctor_mode: bool,
     // the function returns a Result (an early `return Err(..)` may leave a loop)
@@ -173,6 +175,7 @@ fn data_fn(owner: &str, name: &str) -> bool {
                 | "eq"
                 | "overwrite"
                 | "resize"
+                | "get_nth_major_axis_vector"
         )
 }
 
@@ -197,6 +200,12 @@ fn arith_sig(name: &str) -> Option<(&'static str, &'static str, &'static str)> {
         "map" | "map_ref" => ("{L U : Type}", "(esU : Z) (self : matrix L) (f : L -> U)", "(result (matrix U))"),
         "clear" => ("{L : Type}", "(self : matrix L)", "(matrix L)"),
         "contains" => ("{L : Type}", "(eqT : L -> L -> bool) (self : matrix L) (value : L)", "bool"),
+        // the closure of multiplication_like_operation sees two slices; it may be the unchecked dot product of multiply, hence `res`
+        "multiplication_like_operation" => (
+            "{L R U : Type}",
+            "(esL esR esU : Z) (fuel fuel2 : nat) (dflt : U) (self : matrix L) (rhs : matrix R) (op : list L -> list R -> res U)",
+            "(result (matrix U))",
+        ),
         _ => return None,
     })
 }
@@ -211,7 +220,7 @@ fn fuel_fn(name: &str) -> bool {
 // the row / column views: a view (also a mutable one) is the list of the elements it hands out, in order; such a
 // function does not change the matrix by itself
 fn view_fn(name: &str) -> bool {
-    name.starts_with("iter_nth_")
+    name.starts_with("iter_nth_") || name == "get_nth_major_axis_vector"
 }
 
 fn fn_uses_es(f: &FnInfo) -> bool {
@@ -468,6 +477,7 @@ impl<'a> Tr<'a> {
                         let name = tstr(&l.pat);
                         env.insert(name.clone(), Ty::Named("DataPtr".into()));
                         self.has_data = true;
+                        self.ptr_live = true;
                         return format!("let data := m_data self in\n  let {} := 0 in\n  {}", name, self.block(rest, env, k));
                     }
                 }
@@ -569,7 +579,7 @@ impl<'a> Tr<'a> {
                     if tstr(&mc.receiver) == "data" && self.has_data {
                         let name = mc.method.to_string();
                         let args: Vec<&Expr> = mc.args.iter().collect();
-                        if name == "resize_with" && args.len() == 2 && tstr(args[1]) == "T::default" {
+                        if name == "resize_with" && args.len() == 2 && (tstr(args[1]) == "T::default" || tstr(args[1]) == "U::default") {
                             return self.expr(args[0], env, &mut |me, n, env| format!("let data := vec_resize_with data {} dflt in\n  {}", n, me.block(rest, env, k)));
                         }
                         if name == "shrink_to_fit" && args.is_empty() {
@@ -828,6 +838,27 @@ impl<'a> Tr<'a> {
                     all.extend(rest.iter().cloned());
                     return self.block(&all, env, k);
                 }
+            }
+            // `match order { RowMajor => { loops }, ColMajor => { loops } }` as a statement: both arms yield the loop state
+            if let (Stmt::Expr(Expr::Match(m), _), true, false) = (s, self.has_data, rest.is_empty()) {
+                return self.expr(&m.expr, env, &mut |me, sc, env| {
+                    let saved = me.mut_locals.clone();
+                    let arms: Vec<String> = m
+                        .arms
+                        .iter()
+                        .map(|a| {
+                            let p = tstr(&a.pat).rsplit("::").next().unwrap().to_string();
+                            let body = match &*a.body {
+                                Expr::Block(b) => me.block(&b.block.stmts, &mut env.clone(), &mut |me2, _, _| format!("Val {}", me2.state_tuple())),
+                                other => format!("(*UNSUPPORTED match arm body {}*)", tstr(other)),
+                            };
+                            me.mut_locals = saved.clone();
+                            format!("| {} => {}", p, body)
+                        })
+                        .collect();
+                    let unpack = me.state_unpack("st");
+                    format!("let* st := (match {} with {} end) in\n  {}\n  {}", sc, arms.join(" "), unpack, me.block(rest, env, k))
+                });
             }
             // tail `match self.order { .. => self.f(..), .. }`: every arm finishes the function
             if let (Stmt::Expr(Expr::Match(m), None), true) = (s, rest.is_empty()) {
@@ -1234,6 +1265,14 @@ impl<'a> Tr<'a> {
                         }
                     }
                 }
+                if env.get(&p) == Some(&Ty::Named("OpFnM".into())) {
+                    // a closure whose result is an outcome (it may be an unchecked computation)
+                    let args: Vec<&Expr> = c.args.iter().collect();
+                    return self.exprs(&args, env, &mut |me, vs, env| {
+                        let t = me.fresh("u");
+                        format!("let* {} := {} {} in\n  {}", t, p, vs.join(" "), k(me, t.clone(), env))
+                    });
+                }
                 if env.get(&p) == Some(&Ty::Named("OpFn".into())) {
                     // the operation closure: caller code; for the assigning forms its value is the new left element
                     let args: Vec<&Expr> = c.args.iter().collect();
@@ -1305,6 +1344,16 @@ impl<'a> Tr<'a> {
                     body,
                     k(self, t.clone(), env)
                 )
+            }
+            Expr::MethodCall(m) if self.data_mode && m.method == "get_unchecked" && m.args.len() == 1 && matches!(&m.args[0], Expr::Range(_)) && tstr(&m.receiver).ends_with(".data") => {
+                // X.data.get_unchecked(lo..hi)
+                let Expr::Range(r) = &m.args[0] else { unreachable!() };
+                let (Some(lo), Some(hi), RangeLimits::HalfOpen(_)) = (r.start.as_ref(), r.end.as_ref(), &r.limits) else { return "(*UNSUPPORTED range*)".into() };
+                let who = tstr(&m.receiver).trim_end_matches(".data").to_string();
+                self.exprs(&[lo, hi], env, &mut |me, vs, env| {
+                    let t = me.fresh("s");
+                    format!("let* {} := slice_unchecked (m_data {}) {} {} in\n  {}", t, who, vs[0], vs[1], k(me, t.clone(), env))
+                })
             }
             Expr::MethodCall(m) if self.ctor_mode && m.method == "collect" && tstr(&m.receiver).ends_with(".into_iter()") && {
                 let base = tstr(&m.receiver);
@@ -1442,10 +1491,10 @@ impl<'a> Tr<'a> {
                             && me.cx.fns.get(&(s.clone(), name.clone())).map_or(false, |f| tstr(&f.sig.output) == "->&mutSelf") =>
                     {
                         // a data-mode method returning `&mut Self`: its value is the new matrix
-                        if me.has_data {
+                        if me.ptr_live {
                             return "(*UNSUPPORTED method call on self while a raw pointer into self.data is live*)".into();
                         }
-                        let extra = if fuel_fn(&name) { " es fuel" } else { "" };
+                        let extra = if fuel_fn(&name) && me.arith { " esL fuel" } else if fuel_fn(&name) { " es fuel" } else { "" };
                         format!("let* self := G_{}_{} md{} {} in\n  {}", s, name, extra, vs.join(" "), k(me, "self".to_string(), env))
                     }
                     (Ty::Named(s), _) if me.data_mode && recv_is_self && data_fn(s, &name) => {
@@ -1461,11 +1510,30 @@ impl<'a> Tr<'a> {
                         a[0] = "(mview self)".to_string();
                         // another matrix handed to a size / shape function: what such a function sees of it
                         for (i, arg) in m.args.iter().enumerate() {
-                            if matches!(arg, Expr::Path(_)) && env.get(&tstr(arg)) == Some(&Ty::Named("Matrix".into())) {
+                            let inner: &Expr = if let Expr::Reference(r) = arg { &r.expr } else { arg };
+                            if matches!(inner, Expr::Path(_)) && env.get(&tstr(inner)) == Some(&Ty::Named("Matrix".into())) {
                                 a[i + 1] = format!("(mview {})", vs[i + 1]);
                             }
                         }
                         me.call(&s, &name, a, env, k)
+                    }
+                    (Ty::Named(s), _)
+                        if me.arith
+                            && s == "Matrix"
+                            && matches!(&*m.receiver, Expr::Path(_))
+                            && !recv_is_self
+                            && fuel_fn(&name)
+                            && me.cx.fns.get(&(s.clone(), name.clone())).map_or(false, |f| tstr(&f.sig.output) == "->&mutSelf") =>
+                    {
+                        // rhs.set_order(..): the other operand (taken by value) is replaced by the method's result
+                        let who = tstr(&m.receiver);
+                        format!("let* {} := G_{}_{} md esR fuel2 {} in\n  {}", who, s, name, vs.join(" "), k(me, who.clone(), env))
+                    }
+                    (Ty::Named(s), _) if me.data_mode && s == "Matrix" && matches!(&*m.receiver, Expr::Path(_)) && !recv_is_self && data_fn(s, &name) && view_fn(&name) => {
+                        // a view of another matrix
+                        let s = s.clone();
+                        let t = me.fresh("r");
+                        format!("let* {} := G_{}_{} md {} in\n  {}", t, s, name, vs.join(" "), k(me, t.clone(), env))
                     }
                     (Ty::Named(s), _)
                         if me.data_mode && s == "Matrix" && matches!(&*m.receiver, Expr::Path(_)) && !me.callee_is_mut(s, &name) && me.cx.fns.contains_key(&(s.clone(), name.clone())) =>
@@ -1609,6 +1677,9 @@ const TARGETS: &[(&str, &str)] = &[
     ("Matrix", "scalar_operation"),
     ("Matrix", "scalar_operation_consume_self"),
     ("Matrix", "scalar_operation_assign"),
+    // arithmetic.rs: the slice of one major-axis vector and the closure-taking product
+    ("Matrix", "get_nth_major_axis_vector"),
+    ("Matrix", "multiplication_like_operation"),
     // lib.rs: apply / map / map_ref / clear / contains
     ("Matrix", "apply"),
     ("Matrix", "map"),
@@ -1762,7 +1833,9 @@ fn main() {
                         ty = Ty::Named("Rows".into());
                     }
                     if arith_fn(o, n_fn) {
-                        if n == "op" {
+                        if n == "op" && n_fn == "multiplication_like_operation" {
+                            ty = Ty::Named("OpFnM".into());
+                        } else if n == "op" {
                             ty = Ty::Named("OpFn".into());
                         } else if n == "scalar" {
                             ty = Ty::Named("Elem".into());
@@ -1790,6 +1863,7 @@ fn main() {
             uses_es: uses_es0,
             data_mode: dm,
             has_data: false,
+            ptr_live: false,
             ctor_mode: cm,
             ret_result: matches!(ret, Ty::Res(_)),
             arith: am,
@@ -1801,6 +1875,7 @@ fn main() {
         if *o == "Matrix" && *n == "overwrite" {
             // the element vector of the receiver is the state the loops update
             tr.has_data = true;
+            tr.ptr_live = true;
         }
         let body = tr.block(&block.stmts, &mut env, &mut |me, v, _| me.finish(v));
         let body = if *o == "Matrix" && *n == "overwrite" { format!("let data := m_data self in\n  {}", body) } else { body };
